@@ -167,6 +167,7 @@ extern long hx_force_len;
 extern int hx_data_patterns;
 extern uint64_t hx_key_salt;
 extern int hx_full_tags;
+extern IMB_MGR *hx_exec_mgr;
 extern int hx_len_long;
 extern int hx_docsis_shape;
 extern int hx_custom_fail_rate;
